@@ -246,3 +246,8 @@ func (g *GlobalSnap) Check() string {
 func (g *GlobalSnap) FastSame() bool { return hashExtents(g.extents) == g.hash }
 
 func (g *GlobalSnap) NumVars() int { return g.nvars }
+
+// Rebase accepts the current raw memory as the new fast-path baseline. It is
+// called only after a full deep Check has passed (e.g. a lazily filled cache
+// that was empty at init has grown).
+func (g *GlobalSnap) Rebase() { g.hash = hashExtents(g.extents) }
